@@ -476,9 +476,11 @@ fn extreme<const B: Word>(ctx: &mut Ctx, precs: &[usize]) {
     let name = format!("extreme.B{}", B);
     let n = va.len() as u64 * FUNCS.len() as u64;
     let w0 = w0_for(B as u32, precs);
-    ctx.sweep(&name, n, |i, rec| {
+    // isolated: a wrong argument reduction on a huge argument can ask for unbounded memory or time
+    ctx.sweep_isolated(&name, n, |i, rec| {
         let [iv, ifn] = unflatten(i, [va.len() as u64, FUNCS.len() as u64]);
         let (v, f) = (&va[iv], FUNCS[ifn]);
+        rec.label(&format!("{},{}", f.name(), if v.tag.is_empty() { "closed" } else { v.tag }), &format!("base {} {}({}e{})", B, f.name(), v.s, v.e));
         if !in_domain(f, &v.rat) {
             rec.hit("skipped:outside-the-domain(C16)");
             return;
